@@ -42,7 +42,7 @@ EXC_CLASSES = {
     'std::ios_base::failure': 'VF_EXC_ios_failure',
 }
 
-STD_CONST = {'beg': 'VF_IOS_beg', 'cur': 'VF_IOS_cur', 'end': 'VF_IOS_end',
+STD_CONST = {'npos': 'VF_NPOS', 'beg': 'VF_IOS_beg', 'cur': 'VF_IOS_cur', 'end': 'VF_IOS_end',
              'in': 'VF_IOS_in', 'out': 'VF_IOS_out', 'binary': 'VF_IOS_binary'}
 
 # ------------------------------------------------------------------ types
@@ -1527,7 +1527,26 @@ class Fn:
             return ''
         self.unsupported('std::fstream member %s/%d' % (name, len(args)), n)
 
+    def explicit_args(self, args):
+        return [a for a in args if self.strip(a).get('kind') != 'CXXDefaultArgExpr']
+
     def string_call(self, r, name, args, n, want, into):
+        args = self.explicit_args(args)
+        if name == 'empty' and not args:
+            return '(%s->size == 0)' % self.paren(r)
+        if name == 'clear' and not args:
+            self.emit('vf_string_clear(%s);' % r)
+            return ''
+        if name == 'back' and not args:
+            return 'VF_STR_IDX(%s, %s->size - 1)' % (r, self.paren(r))
+        if name == 'find_last_not_of' and len(args) == 1 and self.ty(args[0]).kind == 'scalar':
+            v = self.tmp()
+            self.emit('size_t %s = vf_string_find_last_not_of_char(%s, (char)(%s));' % (v, r, self.rv(args[0])))
+            return v
+        if name == 'erase' and len(args) == 1 and self.ty(args[0]).kind == 'scalar':
+            self.emit('vf_string_erase_from(%s, %s);' % (r, self.rv(args[0])))
+            self.check_exc()
+            return r
         if name in ('size', 'length') and not args:
             return '%s->size' % self.paren(r)
         if name == 'c_str' and not args:
@@ -1556,8 +1575,32 @@ class Fn:
     def vec_call(self, r, vt, name, args, n, want, into):
         tag = vt.elem.tag()
         rp = self.paren(r)
+        args = self.explicit_args(args)
         if name == 'size' and not args:
             return '%s->size' % rp
+        if name == 'empty' and not args:
+            return '(%s->size == 0)' % rp
+        if name == 'clear' and not args:
+            self.emit('vf_vec_%s_clear(%s);' % (tag, r))
+            return ''
+        if name == 'reserve' and len(args) == 1:
+            s_ = self.rv(args[0], discard=True)     # capacity is not modelled (growth always reallocates)
+            if s_:
+                self.emit('(void)(%s);' % s_)
+            return ''
+        if name in ('back', 'front') and not args:
+            el = 'VF_VEC_IDX(%s, %s)' % (r, ('%s->size - 1' % rp) if name == 'back' else '0')
+            if vt.elem.is_obj() or want == 'obj':
+                return '(&%s)' % el
+            return el
+        if name == 'resize' and len(args) == 2:
+            if vt.elem.is_obj():
+                self.emit('vf_vec_%s_resize_fill(%s, %s, %s);' % (tag, r, self.rv(args[0]), self.obj(args[1])))
+                if vt.elem.kind == 'class':
+                    self.check_exc()
+            else:
+                self.emit('vf_vec_%s_resize_fill(%s, %s, %s);' % (tag, r, self.rv(args[0]), self.rv(args[1])))
+            return ''
         if name == 'at' and len(args) == 1:
             i = self.rv(args[0])
             iv = self.tmp()
